@@ -93,6 +93,8 @@ impl Property for C10 {
             "steps": steps_to_json(&steps),
             "read_mode": read_mode_to_json(&read_mode),
             "idle": rng.range(1, 3),
+            // simulated duration of one EOF poll: a spinning follower, or seconds (slow machine / pausing writer)
+            "poll_ms": *rng.pick(&[0u64, 0, 0, 0, 0, 0, 1, 1000, 3000, 60_000]),
         })
     }
 
@@ -108,6 +110,7 @@ impl Property for C10 {
         bool_field(case, "head", true, &mut out);
         num_field(case, "cap", 8192, &mut out);
         num_field(case, "idle", 1, &mut out);
+        num_field(case, "poll_ms", 0, &mut out);
         out
     }
 
@@ -133,6 +136,7 @@ impl Property for C10 {
         spec.steps = steps_from_json(case, "steps");
         spec.read_mode = read_mode_from_json(case, "read_mode");
         spec.end_after_idle = Some(jusize(case, "idle", 1));
+        spec.poll_cost_ns = jusize(case, "poll_ms", 0) as u64 * 1_000_000;
         // a legal run needs at most one read per byte plus one per script step, EINTR and poll
         spec.event_budget = 2000 + 3 * whole.len() + 4 * spec.steps.len();
         let res = run_world(&spec);
@@ -230,6 +234,8 @@ impl Property for C10 {
         out.probe("append_boundary_inside_line", boundary_inside_line as u64);
         out.probe("line_longer_than_buffer", whole.split(|b| *b == b'\n').any(|l| l.len() > cap) as u64);
         out.probe("mode_exec", exec as u64);
+        out.probe("slow_polls_with_partial_line_pending_5s_or_more", (partial_poll && res.clock_ns >= 5_000_000_000) as u64);
+        out.fault("clock_advance_per_poll", (jusize(case, "poll_ms", 0) > 0) as u64);
         out.probe("line_longer_than_64k_across_polls", (partial_poll && whole.split(|b| *b == b'\n').any(|l| l.len() > 65536)) as u64);
         out.probe("no_head", (!head) as u64);
         out.fault("torn_append", chunks.len().saturating_sub(1) as u64);
